@@ -96,6 +96,10 @@ func CheckPlasmaInfo(g *GenesisConfig) error {
 		if fusion == nil {
 			return errors.Errorf("nil FusionInfo for %v", addr)
 		}
+		// the contract records the magnitude of an amount
+		if fusion.Amount.Sign() < 0 {
+			return errors.Errorf("negative fused amount for %v", addr)
+		}
 		totalAmount.Add(totalAmount, fusion.Amount)
 	}
 
@@ -121,6 +125,10 @@ func CheckPillarBalance(g *GenesisConfig) error {
 	totalAmount := big.NewInt(0)
 
 	for _, el := range g.PillarConfig.Pillars {
+		// the contract records the magnitude of an amount
+		if el.Amount.Sign() < 0 {
+			return errors.Errorf("negative amount for pillar %v", el.Name)
+		}
 		totalAmount.Add(totalAmount, el.Amount)
 	}
 
